@@ -1,7 +1,7 @@
 PROP = {
     "id": "C08",
     "theorem_modules": ["Verif.Properties.C08"],
-    "min_theorems": 7,
+    "min_theorems": 10,
     "required_theorems": [
         "Verif.Properties.C08.rules_unchanged",
         "Verif.Properties.C08.refl",
@@ -9,6 +9,9 @@ PROP = {
         "Verif.Properties.C08.any_top",
         "Verif.Properties.C08.trans_witness",
         "Verif.Properties.C08.trans_partial",
+        "Verif.Properties.C08.simple_agree",
+        "Verif.Properties.C08.trans_simple_partial",
+        "Verif.Properties.C08.trans_covariant_partial",
     ],
     "gen": [["vtool", "gen-rules"]],
     "tool_files": ["tool_rules.go"],
@@ -21,15 +24,18 @@ PROP = {
     "level_text": "The Lean subtype relation is the interpretation of the rule data regenerated from tools/subtype-gen/rules.yaml on every "
                   "run (by the repository's own rules parser) and proved equal to the pinned rules (`rules_unchanged`); theorems about it: "
                   "reflexivity, Never bottom, Any top for all types; the transitivity failure `&[Never] <: &[AnyResource] <: &AnyResource` and "
-                  "the run-time/checker disagreement on `Never?` as kernel-checked witnesses; transitivity only in the trivial region "
-                  "(`trans_partial`). Tied to /repo by the `types` stream: all pairs of 49 simple and 18 nominal types and generated "
+                  "the run-time/checker disagreement on `Never?` as kernel-checked witnesses; the interpreted rules equal a structured "
+                  "relation (parent hierarchy) on the whole 49x49 simple-type table (`simple_agree`, kernel decide); transitivity on the whole "
+                  "simple-type lattice (`trans_simple_partial`, all 49^3 triples) and under any stack of array/optional constructors over it "
+                  "(`trans_covariant_partial`), besides the trivial region (`trans_partial`). Tied to /repo by the `types` stream: all pairs of 49 simple and 18 nominal types and generated "
                   "pairs / chain-biased triples of structured types (optionals, arrays, dictionaries, references with authorizations, "
                   "composites, interfaces, intersections, functions, capabilities, inclusive ranges) built with the real sema API from a "
                   "universe declared through the real checker; sema.IsSubType, interpreter.IsSubType, IsSubTypeOfSemaType, the hand-written "
                   "and both generated CheckSubTypeWithoutEquality functions and the sema->static->sema round trip must agree with each other "
                   "and with the Lean relation; reflexivity, bounds and transitivity are judged directly on the Go answers.",
-    "level_note": "Partial: transitivity is NOT proved for the algebra (only witness + trivial region); it is searched by the stream on "
-                  "chain-biased triples. Function type parameters, legacy intersection types, `Storable` and nested `Any` are outside the "
+    "level_note": "Partial: transitivity is proved for simple types and same-shape covariant containers over them, NOT for the whole algebra "
+                  "(shape-changing chains to AnyStruct/AnyResource/HashableStruct, dictionaries, references, nominal types, intersections, "
+                  "functions are missing; see the comment at `trans_partial`); it is searched by the stream on chain-biased triples. Function type parameters, legacy intersection types, `Storable` and nested `Any` are outside the "
                   "model. The interpreter follows the code generators' statement-sequence reading of `or` (a plain boolean reading of "
                   "rules.yaml's IntersectionType rule would accept almost everything). Nominal facts (kind, conformance sets) are printed by "
                   "the harness from the real checker's types.",
